@@ -63,6 +63,7 @@ type respRec struct {
 	Returned  bool
 	PanicV    any
 	Stack     string
+	Trace     string
 	Spin      bool
 	Budget    string // which budget sentinel fired
 	Code      int
@@ -82,6 +83,29 @@ func (p *processJSON) lifecycle() []string {
 		}
 	}
 	return out
+}
+
+// falcoTrace lists the falco frames of the panicking stack, innermost first
+// (diagnostics only: it is not part of any violation key).
+func falcoTrace(skip, max int) string {
+	pcs := make([]uintptr, 96)
+	n := runtime.Callers(skip, pcs)
+	frames := runtime.CallersFrames(pcs[:n])
+	var out []string
+	for len(out) < max {
+		f, more := frames.Next()
+		if i := strings.Index(f.Function, "falco/v2/"); i >= 0 && strings.Contains(f.Function, "ysugimoto/") {
+			file := f.File
+			if k := strings.LastIndex(file, "/"); k >= 0 {
+				file = file[k+1:]
+			}
+			out = append(out, fmt.Sprintf("%s (%s:%d)", f.Function[i+len("falco/v2/"):], file, f.Line))
+		}
+		if !more {
+			break
+		}
+	}
+	return strings.Join(out, " <- ")
 }
 
 func innermostFalcoFrame(skip int) string {
@@ -191,6 +215,7 @@ func (w *world) serve(spec reqSpec) *respRec {
 					rec.PanicV = v
 				}
 				rec.Stack = innermostFalcoFrame(3)
+				rec.Trace = falcoTrace(3, 8)
 			}
 		}()
 		w.interp.ServeHTTP(rw, req)
